@@ -243,14 +243,14 @@ def check_pattern(item):
             off = sym_int('t_off', 0, 22)
             diffs.append(sh.delay_term(mach, tm0 + off) != 0); names.append('contend skipped where the documented delay may be non-zero')
         neff = state['neff']
-        r, mod = p.check(z3.Or(*diffs[:neff]), model=True)
+        r, mod, which_ = p.check_any(diffs[:neff], names[:neff])
         if r == 'unknown':
             res['inconclusive'].append(name); return
         if r == 'sat':
-            which = '; '.join(n for n, d in zip(names, diffs[:neff]) if z3.is_true(mod.eval(d, model_completion=True)))
+            which = '; '.join(which_)
             res['violations'].append(dict(key='%s:%s' % (name, which[:60]), text='%s: %s' % (name, which), case=case(mod)))
             return
-        r, mod = p.check(z3.Or(*diffs[neff:]), model=True)
+        r, mod, which_ = p.check_any(diffs[neff:], names[neff:])
         if r == 'unknown':
             res['inconclusive'].append(name); return
         if r == 'sat':
